@@ -690,6 +690,7 @@ func TestVerifC15C16C19(t *testing.T) {
 		behs = append(behs, b)
 	})
 	workers := verifkit.EnvInt("VERIF_WORKERS", 8)
+	base := verifkit.EnvInt("VERIF_BASE", 0) // index of the first behaviour of this batch
 	var wg sync.WaitGroup
 	var tmu sync.Mutex
 	traces := map[string][]map[string]any{} // budget constants -> concatenated runs
@@ -699,7 +700,7 @@ func TestVerifC15C16C19(t *testing.T) {
 		go func() {
 			defer wg.Done()
 			for i := range next {
-				o := verifMDRunBehaviour(t, mode, i, behs[i])
+				o := verifMDRunBehaviour(t, mode, base+i, behs[i])
 				res.Count("steps", o.steps)
 				if strings.HasPrefix(o.note, "infra:") {
 					res.Count("infra", 1)
